@@ -409,6 +409,8 @@ func (w *World) mapComps(m *types.Map) (dom, val, card *Comp) {
 	n := shortTypeName(m.Key()) + "!" + shortTypeName(m.Elem())
 	dom = w.comp("MD!"+n, "(Array Int (Array "+k+" Bool))", "mapdom")
 	val = w.comp("MV!"+n, "(Array Int (Array "+k+" "+v+"))", "mapval")
+	val.ValTyp = m.Elem()
+	val.KeySort = k
 	card = w.comp("ML!"+n, "(Array Int Int)", "maplen")
 	return
 }
